@@ -50,7 +50,10 @@ def gen_case(r, nops, leak_probe=False):
                     i = r.choice(issued)          # duplicates / late replies
                 else:
                     i = r.choice([nid + 50, 999999])   # unsolicited
-                ops.append({"t": "reply", "id": i})
+                if r.random() < 0.3 and issued:
+                    ops.append({"t": "reply_payload", "id": i, "inner_id": r.choice(issued[-4:])})
+                else:
+                    ops.append({"t": "reply", "id": i})
             elif x < 0.82:
                 ops.append({"t": "ping", "id": r.randint(1, 4294967295)})
             elif x < 0.87:
@@ -77,7 +80,7 @@ def to_terms(case, ob):
         if op["t"] == "issue":
             evs.append("Issue %d" % op["id"])
             outstanding.append((op["id"], now))
-        elif op["t"] == "reply":
+        elif op["t"] in ("reply", "reply_payload"):
             evs.append("PeerReply %d" % op["id"])
             replies_seen[op["id"]] = replies_seen.get(op["id"], 0) + 1
         elif op["t"] == "ping":
